@@ -37,7 +37,8 @@ def safe(thunk) -> str:
 class Suite:
     """collect (protocol line, implementation answer) pairs; compare with the model in batches."""
 
-    def __init__(self, ctx, name, batch=400_000):
+    def __init__(self, ctx, name, batch=400_000, model_canon=None):
+        self.model_canon = model_canon
         self.ctx = ctx
         self.name = name
         self.batch = batch
@@ -69,6 +70,8 @@ class Suite:
         if not self.lines:
             return
         outs = self.ctx.model(self.lines)
+        if self.model_canon:
+            outs = [self.model_canon(o) for o in outs]
         for ln, i, m in zip(self.lines, self.impl, outs):
             self.cases += 1
             if m == "unmodelled":
